@@ -711,4 +711,6 @@ pub enum CqlTypeParseError {
     TypeNotImplemented(u16),
     #[error("Failed to parse custom CQL type: {0}")]
     CustomTypeParseError(CustomTypeParseError),
+    #[error("CQL type nested more than {0} levels deep")]
+    TypeNestingTooDeep(usize),
 }
